@@ -1413,6 +1413,18 @@ func sameConcrete(a, b sVal) (differ bool) {
 		return false
 	}
 	switch x := a.(type) {
+	case sPoint:
+		// a pointer variable that leads to different objects (or to none) on the two paths
+		switch y := b.(type) {
+		case sPoint:
+			return x.id != y.id
+		case sNil:
+			return true
+		}
+	case sNil:
+		if _, ok := b.(sPoint); ok {
+			return true
+		}
 	case sBool:
 		if y, ok := b.(sBool); ok {
 			return x.b != y.b
@@ -1536,7 +1548,8 @@ func (e *sched) mergeAt(states []*sState, fn *ssa.Function, b *ssa.BasicBlock) [
 			return false
 		}
 		if fn == nil {
-			return true
+			// at a call return: the values of the function that has just returned are dead
+			return vf == nil || active[vf]
 		}
 		return active[vf]
 	}
